@@ -534,7 +534,7 @@ def hdict_get(ip, d, k):
     v = z3.Select(d.maps[sp], ke)
     if not ip.ctx.branch(v != VAL.absent, 'key?'):
         raise_(KeyError, 'key')
-    return SV(v, d.valtype)
+    return SV(v, d.valtype, d)
 
 
 def hdict_set(ip, d, k, v):
@@ -565,6 +565,7 @@ def hdict_from_concrete(ip, d, name='d'):
 def hdict_copy(ip, d):
     c = HDict(d.name + "'", dict(d.maps))
     c.valtype = d.valtype
+    c.refs = d.refs          # a shallow copy of a dict shares the objects its values refer to
     return c
 
 
@@ -650,35 +651,58 @@ def bytes_slice(ip, v, sl):
 
 
 def _slice_by_boundaries(ip, v, a, b):
-    """If a and b provably coincide with segment boundaries of v, slice at segment level."""
+    """If a and b can be located in the segment structure of v (on a segment boundary, or at a concrete
+    offset inside a concrete segment), slice at segment level -- keeps concrete bytes concrete."""
     if not isinstance(v, SB):
         return None
     bounds = [0]
     for s in v.segs:
         n = len(s) if isinstance(s, bytes) else s.n
-        bounds.append(bounds[-1] + n if isinstance(bounds[-1], int) and isinstance(n, int) else zint(bounds[-1]) + zint(n))
-    if all(isinstance(x, int) for x in bounds):
+        bounds.append(bounds[-1] + n if isinstance(bounds[-1], int) and isinstance(n, int) else
+                      z3.simplify(zint(bounds[-1]) + zint(n)))
+    if all(isinstance(x, int) for x in bounds) and isinstance(a, int) and isinstance(b, int):
         return None
-    ia = ib = None
-    for idx, bd in enumerate(bounds):
-        if ia is None and ip.ctx.valid(zint(a) == zint(bd)):
-            ia = idx
-        if ia is not None and ib is None and idx >= ia and ip.ctx.valid(zint(b) == zint(bd)):
-            ib = idx
+
+    def locate(x):
+        """(segment index, concrete offset) or None"""
+        x = zint(x)
+        for idx in range(len(v.segs)):
+            d = sym.concrete_int(z3.simplify(x - zint(bounds[idx])))
+            s_ = v.segs[idx]
+            ln = len(s_) if isinstance(s_, bytes) else (s_.n if isinstance(s_.n, int) else None)
+            if d is not None and d >= 0 and ((ln is not None and d < ln) or d == 0):
+                return idx, d
+        d = sym.concrete_int(z3.simplify(x - zint(bounds[-1])))
+        if d == 0:
+            return len(v.segs), 0
+        for idx in range(len(bounds)):
+            if ip.ctx.valid(x == zint(bounds[idx])):
+                return idx, 0
+        return None
+    pa, pb = locate(a), locate(b)
+    if pa is None or pb is None:
+        return None
+    (ia, oa), (ib, ob_) = pa, pb
+    if (ib, ob_) < (ia, oa):
+        return b''
+    out = []
+    for idx in range(ia, min(ib, len(v.segs) - 1) + 1 if ib < len(v.segs) else len(v.segs)):
+        s_ = v.segs[idx]
+        lo = oa if idx == ia else 0
+        hi = ob_ if idx == ib else None
+        if idx == ib and ob_ == 0:
             break
-    if ia is None:
-        return None
-    if ib is None:
-        # end inside a concrete segment that starts at a known boundary?
-        for idx in range(ia, len(v.segs)):
-            s = v.segs[idx]
-            if isinstance(s, bytes):
-                off = z3.simplify(zint(b) - zint(bounds[idx]))
-                co = sym.concrete_int(off)
-                if co is not None and 0 <= co <= len(s):
-                    return mkbytes(list(v.segs[ia:idx]) + [s[:co]])
-        return None
-    return mkbytes(list(v.segs[ia:ib]))
+        if isinstance(s_, bytes):
+            out.append(s_[lo:hi])
+        else:
+            if lo == 0 and hi is None:
+                out.append(s_)
+            else:
+                n_ = s_.n
+                h_ = hi if hi is not None else n_
+                out.append(Seg(z3.SubSeq(s_.e, z3.IntVal(lo), zint(h_) - lo), (h_ - lo) if isinstance(h_, int) else
+                               z3.simplify(zint(h_) - lo)))
+    return mkbytes(out)
 
 
 def getitem(ip, o, k):
@@ -777,6 +801,11 @@ def getitem(ip, o, k):
         ip.ctx.assume(idx == i)
         return SEnum(idx, table)
     if isinstance(o, ZList):
+        if o.items is not None and isinstance(k, int):
+            try:
+                return o.items[k]
+            except IndexError:
+                raise_(IndexError, 'index out of range')
         i = norm_index(ip, k, o.ln)
         return ip.zl_get(o, i)
     if isinstance(o, (str, SStr)):
@@ -803,6 +832,12 @@ def setitem(ip, o, k, v):
             return
         raise Unsupported('store into python list with symbolic index')
     if isinstance(o, ZList):
+        if o.items is not None and isinstance(k, int):
+            try:
+                o.items[k] = v
+            except IndexError:
+                raise_(IndexError, 'assignment index out of range')
+            return
         i = norm_index(ip, k, o.ln)
         o.arr = z3.Store(o.arr, zint(i), bexpr(v) if o.elem == 'bytes' else ip.to_val(v))
         return
@@ -878,6 +913,10 @@ def zl_pop(ip, zl, idx=None):
     ip.heap_write_guard()
     if idx is not None:
         raise Unsupported('pop(index) on symbolic list')
+    if zl.items is not None:
+        if not zl.items:
+            raise_(IndexError, 'pop from empty list')
+        return zl.items.pop()
     if not ip.ctx.branch(zint(zl.ln) > 0, 'nonempty'):
         raise_(IndexError, 'pop from empty list')
     zl.ln = z3.simplify(zint(zl.ln) - 1)
@@ -888,11 +927,20 @@ def zl_append(ip, zl, v):
     ip.heap_write_guard()
     v = ip.resolve(v)
     if zl.elem == 'bytes' and not is_bytes(v):
-        raise Unsupported('append of a non-bytes value to a list of bytes')
+        if isinstance(v, HByteArray) and ip.spec_depth == 0:
+            # representation invariant of the stack: items are immutable bytes (a bytearray would alias
+            # data owned by someone else)
+            ip.ctx.oblige(f'{ip.frames[-1]["key"] if ip.frames else "?"}/deque.append/item-is-bytes', False, 'safety')
+            v = v.v
+        else:
+            raise Unsupported('append of a non-bytes value to a list of bytes')
     if zl.kind == 'deque' and zl.maxlen is not None and ip.spec_depth == 0:
         # a deque at maxlen silently drops the item at the other end: this must never happen
         ip.ctx.oblige(f'{ip.frames[-1]["key"] if ip.frames else "?"}/deque.append/below-maxlen',
                       zint(zl.ln) < zint(zl.maxlen), 'safety')
+    if zl.items is not None:
+        zl.items.append(v)
+        return
     zl.arr = z3.Store(zl.arr, zint(zl.ln), bexpr(v) if zl.elem == 'bytes' else ip.to_val(v))
     zl.ln = z3.simplify(zint(zl.ln) + 1)
 
@@ -930,13 +978,21 @@ def method_model(ip, o, name, args, kwargs):
         if name == 'copy':
             return ZList(o.elem, o.arr, o.ln, kind=o.kind)
         if name == 'remove':
-            # abstraction: either the value is not in the list (ValueError) or one element goes away;
-            # which elements remain is not tracked
+            # list.remove(x): ValueError iff no element equals x; otherwise the FIRST equal element goes
+            # away and the later ones shift down (j is the skolemised position)
             ip.heap_write_guard()
-            if not ip.ctx.branch(fresh('present', z3.BoolSort()), 'in list'):
+            x = args[0]
+            xe = bexpr(ip.resolve(x)) if o.elem == 'bytes' else ip.to_val(x)
+            q = fresh('q', I)
+            absent_ = z3.ForAll([q], z3.Implies(z3.And(q >= 0, q < zint(o.ln)), z3.Select(o.arr, q) != xe))
+            if ip.ctx.branch(absent_, 'not in list'):
                 raise_(ValueError, 'list.remove(x): x not in list')
-            ip.ctx.assume(zint(o.ln) >= 1)
-            o.arr = fresh('arr', o.arr.sort())
+            j = fresh('pos', I)
+            q2 = fresh('q', I)
+            ip.ctx.assume(z3.And(j >= 0, j < zint(o.ln), z3.Select(o.arr, j) == xe))
+            ip.ctx.assume(z3.ForAll([q2], z3.Implies(z3.And(q2 >= 0, q2 < j), z3.Select(o.arr, q2) != xe)))
+            q3 = z3.Const('j!rm', I)
+            o.arr = z3.Lambda([q3], z3.If(q3 < j, z3.Select(o.arr, q3), z3.Select(o.arr, q3 + 1)))
             o.ln = z3.simplify(zint(o.ln) - 1)
             return None
         raise Unsupported(f'list.{name} on symbolic list')
@@ -949,7 +1005,7 @@ def method_model(ip, o, name, args, kwargs):
                 return d
             v = z3.Select(o.maps[sp], ke)
             if ip.ctx.branch(v != VAL.absent, 'key?'):
-                return SV(v, o.valtype)
+                return SV(v, o.valtype, o)
             return d
         if name == 'copy':
             return hdict_copy(ip, o)
@@ -1214,7 +1270,7 @@ def construct(ip, cls, args, kwargs):
     if cls is collections.deque:
         if args:
             raise Unsupported('deque(iterable)')
-        return ZList('bytes', z3.K(I, z3.Empty(BYTES)), 0, kind='deque', maxlen=kwargs.get('maxlen'))
+        return ZList('bytes', kind='deque', maxlen=kwargs.get('maxlen'), items=[])
     key = None
     mod = getattr(cls, '__module__', '') or ''
     if mod.startswith('tapescript'):
